@@ -111,7 +111,12 @@ WRec(id, ch) == CASE ch = "absent" -> <<>>
 RECURSIVE WDb(_, _)
 WDb(f, i) == IF i > Len(WIds) THEN <<>> ELSE WRec(WIds[i], f[i]) \o WDb(f, i + 1)
 Dbs == {WDb(f, 1) : f \in [1..Len(WIds) -> WChoices]}
-WeqPairs == {<<start, db>> : start \in {<<<<a, Ref(T("r1"), <<>>)>>>>, <<<<a, Ref(T("r2"), <<>>)>>>>, <<<<a, One>>>>, <<>>}, db \in Dbs}
+\* the evaluated record: pointing at the target, at the first database record, no Ref, no tag - and the same with an `id` of its
+\* own that IS the target (the chain leads back to the record the term is evaluated on) or is another ref
+WeqStarts == {<<<<a, Ref(T("r1"), <<>>)>>>>, <<<<a, Ref(T("r2"), <<>>)>>>>, <<<<a, One>>>>, <<>>,
+              <<<<a, Ref(T("r2"), <<>>)>>, <<T("id"), Ref(T("r1"), <<>>)>>>>, <<<<a, Ref(T("r1"), <<>>)>>, <<T("id"), Ref(T("r1"), <<>>)>>>>,
+              <<<<a, Ref(T("r2"), <<>>)>>, <<T("id"), Ref(T("r2"), <<>>)>>>>, <<<<a, Ref(T("r3"), <<>>)>>, <<T("id"), Ref(T("r9"), <<>>)>>>>}
+WeqPairs == {<<start, db>> : start \in WeqStarts, db \in Dbs}
 
 Init == x \in (CASE Mode = "parse" -> ParseFilters [] Mode = "eval" -> EvalPairs [] Mode = "grid" -> GridPairs [] Mode = "weq" -> WeqPairs)
 Next == UNCHANGED x
